@@ -525,6 +525,8 @@ class CT:
         if isinstance(op, ast.Sub):
             return CT.ew(lambda x, y: sc_add_g(x, sc_neg(y)), a, b, dtype=dt)
         if isinstance(op, ast.Mult):
+            if a.dtype == "bool" and b.dtype == "bool":  # torch: bool * bool is the conjunction, dtype bool
+                return CT.ew(sc_and, a, b, dtype="bool")
             return CT.ew(sc_mul, a, b, dtype=dt)
         if isinstance(op, ast.Div):
             return CT.ew(sc_div, a, b, dtype="float")
